@@ -18,15 +18,17 @@ def run(ctx):
     ctx.rule("C10.R3", "K4", "(= C03.R6) surplus workers are retired oldest first with strictly increasing ages: exactly the old generation goes")
     ctx.rule("C10.R4", "K5/K6", "(= C04.R2/R3) old workers leave gracefully on SIGTERM")
     ctx.rule("C10.R5", "K7", "(= C03.R1) HUP is dispatched to handle_hup -> reload")
-    ctx.rule("C10.R6", "K9", "(= C03.R7) the master survives the SIGCHLDs of the retiring generation: no live iteration of WORKERS (a crash of the main loop closes the listeners)")
+    ctx.rule("C10.R6", "K9", "(= C03.R7/R5) the master survives the SIGCHLDs of the retiring generation: no live iteration of WORKERS, a signal to a worker that was just reaped is not an error (a crash of the main loop closes the listeners)")
     r1(ctx)
     r2(ctx)
     # shared mechanisms, evaluated under this property's rule ids
     _alias(ctx, c03.r6, "C03.R6", "C10.R3")
     _alias(ctx, c04.r2, "C04.R2", "C10.R4")
-    _alias(ctx, c04.r3, "C04.R3", "C10.R4")
+    _alias(ctx, c04.r3, "C04.R3", "C10.R4")      # (includes: a retiring async worker's handlers do not touch the closed listener)
     r5(ctx)
     _alias(ctx, c03.r7, "C03.R7", "C10.R6")
+    # ... and the SIGTERM that manage_workers repeats on every pass may find the retiring worker already reaped
+    c03.kill_worker_table(ctx, "C10.R6")
 
 
 class _Alias:
